@@ -259,6 +259,20 @@ def _hook_replace(ctx, s, old, new):
     return replaced(ctx, s, old, new)
 
 
+def _hook_slice(ctx, s, start, stop):
+    """s[a:b] for literal a, b >= 0 is exactly str.substr(s, a, b - a) (SMT-LIB clamps like Python does); s[a:] is substr(s, a, |s|)."""
+
+    def lit(x):
+        return x is None or (isinstance(x, int) and not isinstance(x, bool) and x >= 0)
+
+    if not (lit(start) and lit(stop)):
+        return NotImplemented
+    a = start or 0
+    if stop is None:
+        return mk_str(z3.SubString(s.t, a, z3.Length(s.t)), s.kind)
+    return mk_str(z3.SubString(s.t, a, max(stop - a, 0)), s.kind)
+
+
 def _rstrip_axioms(s_t, r, f):
     """r = s.rstrip(chars): r is a prefix of s, what was cut consists of chars only, r does not end in one of them."""
     name = f.name()
@@ -364,6 +378,7 @@ def _common_setup(reg, ex):
     ex.split_handler = _split_model
     hooks = dict(getattr(ex, 'str_hooks', None) or {})
     hooks['replace'] = _hook_replace
+    hooks['slice'] = _hook_slice
     ex.str_hooks = hooks
     ex.str_axioms['rstrip'] = _rstrip_axioms
     reg.add_model(bytearray, _bytearray_model)
@@ -519,7 +534,7 @@ for _fn in ('_join_tokens_bytearray', '_join_tokens_list'):
 
 def _joiners_agree(v):
     """Both joiners on the same list: the platform switch (and decode's short/long switch) cannot change the result."""
-    n = 1 + v.choose(5, 'tokens')
+    n = 1 + v.choose(9, 'tokens')
     toks = [v.bytes('t%d' % i) for i in range(n)]
     with hex_table(v):
         a = v.call(list(toks), target=M + ':_join_tokens_bytearray')
@@ -530,7 +545,7 @@ def _joiners_agree(v):
         v.cover('agree')
 
 
-for _n in range(5):
+for _n in range(9):
     harness(PROP, M + ':_join_tokens_list', name='joiners_agree[tokens=%d]' % (_n + 1), setup=_common_setup, fix={'tokens': _n})(_joiners_agree)
 
 
